@@ -202,6 +202,7 @@ class Check:
         self.module, self.theorems = module, theorems
         self.lake_targets = lake_targets or [module, "pcdriver"]
         self.rng = random.Random(seed * 1000003 + int(hashlib.sha1(pid.encode()).hexdigest()[:8], 16))
+        self._subs = {}
         self.t0 = time.time()
         self.evaluations = 0
         self.nontrivial = set()
@@ -280,6 +281,13 @@ class Check:
             self.nontrivial.add(key if isinstance(key, (str, int, tuple)) else repr(key))
         if sample is not None and len(self.samples) < 6:
             self.samples.append(sample)
+
+    def sub(self, name):
+        """a generator of its own for one family of cases (seeded by check, seed and name): what is added to one family
+        does not shift the random choices of the others"""
+        if name not in self._subs:
+            self._subs[name] = random.Random("%s|%d|%s" % (self.pid, self.seed, name))
+        return self._subs[name]
 
     def remember(self, label, thunk, result, every=7, cap=400):
         """keep every `every`-th evaluation (label, thunk, repr of its result) for `recheck()`"""
